@@ -157,7 +157,7 @@ func tableMain(in, out string, repeat int) {
 			if !stable || !permitted {
 				res.Mismatch(map[string]any{"case": "ledger-" + r.Kind, "stable": stable, "permitted_verdict": permitted, "ledger": r.Led,
 					"client": map[string]string{"id": cat(q.C.ID), "username": cat(q.C.Un), "remote": cat(q.C.Rm)},
-					"topic": hx.Join(q.T), "write": q.W, "password": cat(q.Pw), "expected": q.Ok, "got": outs})
+					"topic":  hx.Join(q.T), "write": q.W, "password": cat(q.Pw), "expected": q.Ok, "got": outs})
 			}
 			// non-trivial: a decision taken by a rule (not the default), counted per (ledger, verdict set)
 			if len(r.Led.Users)+len(r.Led.Auth)+len(r.Led.ACL) > 0 {
